@@ -9,6 +9,8 @@ import Mathlib.Data.ZMod.Basic
 import Mathlib.FieldTheory.Finite.Basic
 import DosModel.Proofs.MontInvert
 import DosModel.Proofs.Bn256Prime
+import DosModel.Proofs.Bn256Tower2
+import Mathlib.NumberTheory.LegendreSymbol.Basic
 
 namespace Dos.Bn256
 open Dos.Mont
@@ -87,5 +89,24 @@ theorem dec_inv (a : GFp) (ha : a.v < p) : (a⁻¹).v < p ∧ dec a⁻¹ = (dec 
     have := (ZMod.natCast_eq_natCast_iff _ _ _).mpr h
     push_cast at this
     exact eq_inv_of_mul_eq_one_left this
+
+
+/-- p ≡ 3 (mod 4): −1 is not a square in the base field, so gfP2 = F_p[i]/(i²+1) is a field -/
+theorem p_mod_four : p % 4 = 3 := by decide
+
+theorem fp2_norm_ne_zero (a : Fp2 (ZMod p)) (ha : a ≠ 0) : a.x * a.x + a.y * a.y ≠ 0 := by
+  intro h
+  by_cases hy : a.y = 0
+  · have hx : a.x = 0 := by
+      rw [hy, mul_zero, add_zero] at h
+      exact mul_self_eq_zero.mp h
+    apply ha
+    exact Fp2.ext' hx hy
+  · have hxy : a.x ^ 2 = -a.y ^ 2 := by rw [pow_two, pow_two]; exact eq_neg_of_add_eq_zero_left h
+    exact ZMod.mod_four_ne_three_of_sq_eq_neg_sq' hy hxy p_mod_four
+
+/-- over the base field of bn256, gfP2.Invert inverts EVERY non-zero element -/
+theorem fp2_invert_all (a : Fp2 (ZMod p)) (ha : a ≠ 0) : a * Fp2.invert a = 1 :=
+  Fp2.mul_invert a (fp2_norm_ne_zero a ha)
 
 end Dos.Bn256
